@@ -132,6 +132,15 @@ def run(cx):
             errs = [s for s in cx.returns(ir, r'^Result::Err\(') if cx.has_guard(s, r'^!ok\(Journal::insert_record\(')]
             cx.must_pass('C14.P3', ir, errs, via_blocks={s.bb for s in rollback}, what='failing-row-rolls-back')
             cx.check('C14.P3', len(errs) == 1 and len(rollback) == 1, ir.path, 'ret', 'row-error-return', f'{len(errs)}/{len(rollback)}')
+            # ONE transaction for the whole batch: the batch is not cut into pieces that commit separately (no recursion, no
+            # chunking), and every way out of the function with Ok went through BEGIN
+            selfcalls = cx.calls(ir, r'persistence::Journal::insert_records$')
+            pieces = cx.calls(ir, r'slice::<impl \[T\]>::(split_at|split_at_checked|chunks|chunks_exact|windows|split_first|split_last|split_off)$|slice::(split_at|split_at_checked|chunks|chunks_exact|windows|split_first|split_last)$')
+            cx.check('C14.P3', not selfcalls and not pieces, ir.path, 'calls', 'batch-not-split-into-separately-committed-pieces',
+                     '; '.join(x.label for x in selfcalls + pieces), (selfcalls + pieces)[0].loc if selfcalls + pieces else '')
+            allrets = cx.returns(ir, r'.')
+            okish = [r_ for r_ in allrets if not r_.term.startswith('Result::Err(') and 'from_residual' not in r_.term]
+            cx.must_pass('C14.P3', ir, okish, via_blocks={b_.bb for b_ in begin}, what='every-non-error-exit-went-through-BEGIN')
     pj_ = cx.fn('C14.P3', S + 'persist_to_journal::{closure#0}')
     if pj_:
         single = cx.calls(pj_, r'persistence::Journal::insert_record$')
